@@ -193,9 +193,24 @@ Definition pair_rows {A B} (ks : list A) (bs : list B) : list (A * B) :=
 
 (* a sequence of calls (same arrays, one process): each stop = (at_des, at_round, after_step), None = argument left to its default;
    dc_obs = for each call the packed rows of the result (each row has 8 columns); a key row is given as its 8-byte limbs *)
+(* dc_key_many / dc_block_many: the key / block argument is a 2-D array (its rows are listed) rather than one 1-D row;
+   dc_obs_shape = for each call the shape of the returned array *)
 Record cipher_case := {
-  dc_dec : bool; dc_keys : list (list N) (* each key row as 8-byte limbs *); dc_blocks : list N;
-  dc_stops : list (option nat * option nat * option nat); dc_obs : list (list N) }.
+  dc_dec : bool; dc_key_many : bool; dc_keys : list (list N) (* each key row as 8-byte limbs *);
+  dc_block_many : bool; dc_blocks : list N;
+  dc_stops : list (option nat * option nat * option nat); dc_obs_shape : list (list nat); dc_obs : list (list N) }.
+
+(* the shape of the result, at EVERY stop point: one 1-D key and one 1-D block -> (8,); otherwise one row per (key, block) pair,
+   (n, 8) -- except that the code squeezes its result, so that n = 1 comes back as (8,) (the documented (1, 8) is accepted too) *)
+Definition shape_ok (key_many block_many : bool) (n : nat) (sh : list nat) : bool :=
+  if key_many || block_many
+  then (if Nat.eqb n 1 then natlist_eqb sh [8%nat] || natlist_eqb sh [1%nat; 8%nat] else natlist_eqb sh [n; 8%nat])
+  else natlist_eqb sh [8%nat].
+
+(* 1-D arguments have exactly one row; two 2-D arguments have the same number of rows *)
+Definition rows_ok (c : cipher_case) : bool :=
+  (dc_key_many c || Nat.eqb (length (dc_keys c)) 1) && (dc_block_many c || Nat.eqb (length (dc_blocks c)) 1)
+  && (negb (dc_key_many c && dc_block_many c) || Nat.eqb (length (dc_keys c)) (length (dc_blocks c))).
 
 Definition stop_args (klen : nat) (stop : option nat * option nat * option nat) : nat * nat * nat :=
   let '(d, r, s) := stop in (resolve_des klen d, resolve_round r, match s with Some s => s | None => 9%nat end).
@@ -217,7 +232,10 @@ Definition prepare_pair (kb : list N * list N) : prepared_pair :=
 (* the SPEC is compared on every pair; the impl-model on the first pair of every call *)
 Definition cipher_check (c : cipher_case) : bool :=
   let pairs := map prepare_pair (pair_rows (map unpack_limbs (dc_keys c)) (map (unpack 8) (dc_blocks c))) in
-  forallb2 (fun stop obs =>
+  rows_ok c
+  && Nat.eqb (length (dc_obs_shape c)) (length (dc_stops c))
+  && forallb (shape_ok (dc_key_many c) (dc_block_many c) (length pairs)) (dc_obs_shape c)
+  && forallb2 (fun stop obs =>
       forallb2 (fun pp o =>
           let '(d, r, s) := stop_args (length (pp_key pp)) stop in
           orow_eqb (des_spec_with (pp_spec_ks pp) (dir_of (dc_dec c)) d r s (pp_block pp)) o) pairs obs
@@ -231,6 +249,13 @@ Definition cipher_check (c : cipher_case) : bool :=
 Definition cipher_expected (c : cipher_case) : list (list (option N)) :=
   let pairs := pair_rows (map unpack_limbs (dc_keys c)) (map (unpack 8) (dc_blocks c)) in
   map (fun stop => map (fun kb => option_map pack (stop_spec (dc_dec c) stop (fst kb) (snd kb))) pairs) (dc_stops c).
+
+(* --- histories: a few calls in ONE process (hidden state between calls of a pure function), each compared on its own *)
+Inductive call := CallCipher (c : cipher_case) | CallPrim (c : prim_case).
+Definition call_check (c : call) : bool := match c with CallCipher c => cipher_check c | CallPrim c => prim_check c end.
+Definition hist_check (h : list call) : bool := forallb call_check h.
+(* for the replay file: which calls of the history agree *)
+Definition hist_explain (h : list call) : list bool := map call_check h.
 
 (* ------------------------------------------------------------------ vocabulary of the statements (Props/C06.v) *)
 (* the two kinds of key argument the library accepts *)
